@@ -66,6 +66,7 @@ package cmd
 //@   loop 1
 //@     invariant [count] totaltrees >= 0
 //@     invariant [reservoir_size] len(outtrees) == numtrees
+//@     step [every_tree_read_is_counted_as_seen] next(totaltrees) == totaltrees + 1
 //@     step [fill_phase] totaltrees < numtrees ==> outtrees[totaltrees] == t.Tree && (forall k int :: 0 <= k && k < numtrees && k != totaltrees ==> outtrees[k] == atHead(outtrees[k])) && ghost(rand_count) == atHead(ghost(rand_count))
 //@     step [replace_phase_one_draw] totaltrees >= numtrees ==> ghost(rand_count) == atHead(ghost(rand_count)) + 1 && ghost(rand_range) == totaltrees + 1
 //@     step [replace_phase_hit] totaltrees >= numtrees && ghost(rand_last) < numtrees ==> outtrees[ghost(rand_last)] == t.Tree && (forall k int :: 0 <= k && k < numtrees && k != ghost(rand_last) ==> outtrees[k] == atHead(outtrees[k]))
@@ -73,6 +74,8 @@ package cmd
 //@   loop 2
 //@     invariant [count] totaltrees >= 0
 //@     invariant [reservoir_size] len(outtrees) == numtrees
+//@   loop 2
+//@     step [every_tree_read_is_counted_as_seen_with_replacement] next(totaltrees) == totaltrees + 1
 //@   loop 3
 //@     invariant [slot_range] j >= 0 && totaltrees >= 1 && len(outtrees) == numtrees
 //@     step [one_draw_per_slot_among_all_seen] ghost(rand_count) == atHead(ghost(rand_count)) + 1 && ghost(rand_range) == totaltrees
